@@ -55,6 +55,11 @@ Definition is_reclist (T : entry_tables) (ty : string) : bool :=
 
 (* the finite obligations on the regenerated tables from which entry_sound follows *)
 Definition tables_ok (T : entry_tables) : bool :=
+  (* allTypes contains every kind that has a struct pattern node of its own (a row that is exactly [itself]) *)
+  forallb (fun kr => match snd kr with
+                     | [k] => if String.eqb k (fst kr) then mem k (t_all T) else true
+                     | _ => true
+                     end) (t_rows T) &&
   (* every kind that can start a match has a pattern node whose row contains it *)
   forallb (fun ty => mem ty (row_of T ty) && is_table T ty) (t_all T) &&
   (* Or collects from all alternatives, Binding from its node; a bare name, Nil and -- because it matches
